@@ -3,6 +3,7 @@
 // machine (current set, other set); after every step the public observers are printed.
 #include "common.hpp"
 
+#include <algorithm>
 #include <bitset>
 #include <bit>
 #include <stdexcept>
@@ -265,12 +266,22 @@ bool std_step(std::bitset<B>& cur, std::bitset<B>& oth, Op const& o, std::string
             bool t4 = ~cur[o.a];
             q       = bools({t1, t2, t3, t4});
         } else if (s == "str") {
+            // [bitset.cons]: invalid_argument if ANY of the rlen = min(n, size - pos) characters is
+            // neither zero nor one.  libstdc++ only examines the first min(N, rlen) of them; the
+            // standard's wording is applied to the remaining ones here.
+            if (o.pos <= o.str.size()) {
+                u64 rlen = std::min<u64>(o.n, o.str.size() - o.pos);
+                for (u64 j = 0; j < rlen; ++j) {
+                    char c = o.str[static_cast<std::size_t>(o.pos + j)];
+                    if (c != o.zero && c != o.one) { return false; }
+                }
+            }
             cur = std::bitset<B>(o.str, static_cast<std::size_t>(o.pos), static_cast<std::size_t>(o.n), o.zero, o.one);
         }
     } catch (std::out_of_range const&) {
         return false;
     } catch (std::invalid_argument const&) {
-        q = "invalid_argument";
+        return false;
     }
     return true;
 }
@@ -286,7 +297,6 @@ void run_hist(std::vector<Op> const& ops, Out& impl, Out& ref, bool words)
     std::bitset<B> soth;
     std::vector<std::string> ei;
     std::vector<std::string> si;
-    bool dom = true;
     for (auto const& o : ops) {
         std::string q;
         bool ok = etl_step<A>(cur, oth, o, q);
@@ -297,11 +307,10 @@ void run_hist(std::vector<Op> const& ops, Out& impl, Out& ref, bool words)
         ei.push_back(ok ? observe_etl<A>(cur, oth, q) : std::string("contract"));
         std::string sq;
         bool sok = std_step<B>(scur, soth, o, sq);
-        if (sq == "invalid_argument") { dom = false; }
         si.push_back(sok ? observe_std<B>(scur, soth, sq, A::is_full) : std::string("contract"));
     }
     impl.tok(join_steps(ei));
-    if (!words && dom) { ref.tok(join_steps(si)); }
+    if (!words) { ref.tok(join_steps(si)); }
 }
 
 template <std::size_t B>
@@ -365,18 +374,6 @@ constexpr bool ct_strings()
 WIDTHS(X)
 #undef X
 
-template <std::size_t B>
-void run_strbad(Op const& o, Out& impl)
-{
-    std::string r;
-    bool ok = step_guard([&] {
-        auto sv = etl::string_view(o.str.data(), o.str.size());
-        etl::bitset<B> b(sv, static_cast<std::size_t>(o.pos), static_cast<std::size_t>(o.n), o.zero, o.one);
-        r = AsBitset<B>::text(b) + ' ' + std::to_string(b.count());
-    });
-    impl.tok(ok ? r : std::string("contract"));
-}
-
 template <typename S>
 void codes(Out& o, S const& s)
 {
@@ -419,22 +416,6 @@ bool vh::run_case(std::string const& op, Toks& in, Out& impl, Out& ref)
         bool words = op == "words";
         switch (bits) {
 #define X(Bv) case Bv: return dispatch_kind<Bv>(kind, w, ops, impl, ref, words);
-            WIDTHS(X)
-#undef X
-        default: return false;
-        }
-    }
-    if (op == "strbad") {
-        auto bits = in.num();
-        Op o;
-        auto len = in.num();
-        for (i64 c = 0; c < len; ++c) { o.str.push_back(static_cast<char>(in.num())); }
-        o.pos  = in.unum();
-        o.n    = in.unum();
-        o.zero = static_cast<char>(in.num());
-        o.one  = static_cast<char>(in.num());
-        switch (bits) {
-#define X(Bv) case Bv: run_strbad<Bv>(o, impl); return true;
             WIDTHS(X)
 #undef X
         default: return false;
